@@ -1,7 +1,7 @@
 (* Properties/C15.v — merge laws. *)
 From AY Require Import Model.Merge Spec.Update Proofs.MergePlain Proofs.Laws Proofs.Local.
 From AY Require Import Model.Loader Proofs.MergeGen Proofs.KeyOrder.
-From AY Require Spec.UpdateP Proofs.MergePrio Proofs.PrioPath Proofs.PrioLaws.
+From AY Require Spec.UpdateP Proofs.MergePrio Proofs.PrioPath Proofs.PrioLaws Proofs.PrioOrder.
 
 (* Repeating the last document does not change the result: for every history of tag-free mapping documents and every
    well-formed last document (unique keys, no negative index keys), building docs ++ [d; d] and docs ++ [d] gives trees of
@@ -132,6 +132,21 @@ Theorem C15_empty_neutral_prioritised : forall e s0 l1 l2 fE xE,
               PrioLaws.kids (MergePrio.perase n) = PrioLaws.kids (MergePrio.perase m).
 Proof. exact PrioLaws.empty_doc_neutral_flatten. Qed.
 Print Assumptions C15_empty_neutral_prioritised.
+
+(* key order: histories of prioritised mapping documents that differ only in the order in which the entries of their mappings are written
+   (at any depth) build trees that are equal up to that order - every value and every priority *)
+Theorem C15_key_order_neutral_prioritised : forall e s0 sts s0' sts',
+  Forall MergePrio.NewZ (s0 :: sts) -> Forall MergePrio.NewZ (s0' :: sts') ->
+  forallb is_dictk (s0 :: sts) = true -> forallb is_dictk (s0' :: sts') = true ->
+  Forall2 PrioOrder.peqvp (map MergePrio.perase (s0 :: sts)) (map MergePrio.perase (s0' :: sts')) ->
+  exists n m, flatten e (s0 :: sts) = Ok n /\ flatten e (s0' :: sts') = Ok m /\ PrioOrder.peqvp (MergePrio.perase n) (MergePrio.perase m).
+Proof. exact PrioOrder.key_order_neutral_prio. Qed.
+Print Assumptions C15_key_order_neutral_prioritised.
+
+Theorem C15_permutation_is_peqvp : forall p kv kv', NoDup (map fst kv) -> Permutation.Permutation kv kv' ->
+  PrioOrder.peqvp (UpdateP.PPD p kv) (UpdateP.PPD p kv').
+Proof. exact PrioOrder.peqvp_permutation. Qed.
+Print Assumptions C15_permutation_is_peqvp.
 
 (* the prioritised reference update is idempotent in its second argument, and merging a value with itself is the identity *)
 Theorem C15_prioritised_update_idempotent : forall b a, PrioPath.pwf b -> UpdateP.upd_p (UpdateP.upd_p a b) b = UpdateP.upd_p a b.
